@@ -54,7 +54,11 @@ func display(p *syntax.Parser, err error) (text string, panicked interface{}) {
 func checkFrontEnd(src []rune, tag string) {
 	// the engine models what exec does: the source slice comes from a
 	// string conversion (capacity rounded up by the allocator)
-	p, o := parse([]rune(string(src)))
+	checkFrontEndOn(src, []rune(string(src)), tag)
+}
+
+func checkFrontEndOn(src, given []rune, tag string) {
+	p, o := parse(given)
 	zv.Assert(o.panicked == nil, tag+": Parse does not panic")
 	if o.err == nil {
 		zv.Reach("tree")
@@ -89,6 +93,20 @@ func H_E1_SymbolicSource() {
 		zv.Assume(pureInAlphabet(src[k]))
 	}
 	checkFrontEnd(src, "E1")
+}
+
+var anyRuneContexts = [][2]string{{"", ""}, {"令X = ", ""}, {"令X", " = 1"}, {"`", "`"}, {"“", "”"}, {"注：", ""}, {"（显示：", "）"}}
+
+// H_E1c_AnyRune: one character that may be ANY Unicode scalar value (and any
+// other int32 a []rune can hold), in seven contexts.
+func H_E1c_AnyRune() {
+	ctx := anyRuneContexts[zv.Choose(len(anyRuneContexts))]
+	c := zv.Rune("c")
+	zv.Assume(c >= 0 && c <= 0x10FFFF && !(c >= 0xD800 && c <= 0xDFFF)) // what decoding a file or a Go string can yield
+	src := append(append([]rune(ctx[0]), c), []rune(ctx[1])...)
+	given := make([]rune, len(src), len(src)+8)
+	copy(given, src)
+	checkFrontEndOn(src, given, "E1c["+ctx[0]+"·"+ctx[1]+"]")
 }
 
 // isSourceLine: q equals some physical line of src up to leading blanks (the
